@@ -360,6 +360,14 @@ class ArgumentParser:
             exit_on_error=False,
             allow_abbrev=False,
         )
+
+        # Report every parser error (e.g., an ambiguous abbreviation) as an
+        # ArgumentError instead of exiting; it is handled below.
+        def raise_argument_error(message):
+            raise argparse.ArgumentError(None, message)
+
+        parser.error = raise_argument_error
+
         parser.add_argument("-D", dest="defines", action="append")
         parser.add_argument(
             "-I",
